@@ -79,6 +79,12 @@ def _job(arg):
 def run(cr: CheckRun) -> None:
     eh, en = c04._imports()
     quick = cr.tier == "quick"
+    # on the model: over the complete structural space of encodings the text denotation and the semantics agree with each other
+    res = run_tlc(SD, "MCSemSpace", "MCSemSpace_quick.cfg" if quick else "MCSemSpace.cfg", workers=vlib.NCPU, tag="C03-semspace", timeout=3400, heap="8g")
+    if res.invariant_violated or "Error:" in res.out:
+        raise MachineryError("MCSemSpace (DenoteCoversExec / ResolveTotal) failed on the specification itself:\n" + res.out[-2500:])
+    cr.add_tlc("MCSemSpace (ResolveTotal, DenoteCoversExec, LengthIsStatic, CanonOfTruncation)", res)
+    cr.mark("model")
     encs = en.valid_structures(cr.tier, cr.seed)
     rnd = random.Random(cr.seed + 3)
     items = []
